@@ -30,13 +30,94 @@ def foldedTrack (src : List Event) (p q L : Nat) : List Event :=
   let evs := if breakPoint ≠ 0 then ins evs (p + breakPoint) lbEv else evs
   ins evs p lsEv
 
+/-- the loop branch of `apply_match` writes the fold of the CAPPED loop length (repair of D2) -/
 theorem applyMatch_loop_eq {song : Song} {m : SAMap} {bm : Match} {subId : Int} {src : List Event}
     (hsrc : song.track? bm.trackId = some src) (hbr : ¬ bm.loopScore < bm.subScore) :
     applyMatch song m bm subId =
-      .ok (setTrack song bm.trackId (foldedTrack src bm.position bm.loopPosition bm.loopLength), m, subId) := by
+      .ok (setTrack song bm.trackId (foldedTrack src bm.position bm.loopPosition
+        (capLoopLength (bm.loopPosition - bm.position) bm.loopLength)), m, subId) := by
   unfold applyMatch
   simp only [hsrc, hbr, if_false]
   rfl
+
+/-! ### the cap of the loop count (`max_loop_count`, repair of D2) -/
+
+theorem maxLoopCount_eq : maxLoopCount = 255 := rfl
+theorem maxFold_eq : maxFold = 254 := rfl
+
+/-- the two cases of the cap: the fold fits (`L / n + 1 (+1) ≤ 255`) and is left alone, or it is
+shortened to 254 whole repetitions, which is strictly less than what was matched -/
+theorem capLoopLength_cases {n : Nat} (L : Nat) (hn : 0 < n) :
+    (capLoopLength n L = L ∧ (L / n < 254 ∨ (L / n = 254 ∧ L % n = 0))) ∨
+    (capLoopLength n L = 254 * n ∧ 254 * n < L) := by
+  unfold capLoopLength
+  rw [maxFold_eq]
+  have h := Nat.div_add_mod L n
+  split
+  · rename_i hc
+    right
+    refine ⟨rfl, ?_⟩
+    rcases hc with hc | ⟨hc, hr⟩
+    · have h1 : n * 255 ≤ n * (L / n) := Nat.mul_le_mul_left n hc
+      omega
+    · rw [hc] at h
+      have : 0 < L % n := Nat.pos_of_ne_zero hr
+      omega
+  · rename_i hc
+    left
+    refine ⟨rfl, ?_⟩
+    omega
+
+theorem capLoopLength_le {n : Nat} (L : Nat) (hn : 0 < n) : capLoopLength n L ≤ L := by
+  rcases capLoopLength_cases L hn with ⟨h, _⟩ | ⟨h, h'⟩ <;> omega
+
+theorem capLoopLength_ge3 {n L : Nat} (hn : 0 < n) (hL : 3 ≤ L) : 3 ≤ capLoopLength n L := by
+  rcases capLoopLength_cases L hn with ⟨h, _⟩ | ⟨h, h'⟩ <;> omega
+
+/-- the quotient and remainder of the capped length: at most 254 whole repetitions are erased, and
+exactly 254 only without a remainder -/
+theorem capLoopLength_div {n : Nat} (L : Nat) (hn : 0 < n) :
+    capLoopLength n L / n < 254 ∨ (capLoopLength n L / n = 254 ∧ capLoopLength n L % n = 0) := by
+  rcases capLoopLength_cases L hn with ⟨h, h'⟩ | ⟨h, _⟩
+  · rw [h]; exact h'
+  · right
+    rw [h]
+    exact ⟨Nat.mul_div_cancel 254 hn, Nat.mul_mod_left 254 n⟩
+
+/-- the repeat count of a capped fold fits `int16_t` with a wide margin (the hypothesis `hrep` of
+`foldedTrack_break` / `foldedTrack_nobreak`) -/
+theorem capLoopLength_rep {n : Nat} (L : Nat) (hn : 0 < n) : capLoopLength n L / n + 2 < 32768 := by
+  rcases capLoopLength_div L hn with h | ⟨h, _⟩ <;> omega
+
+/-- a capped fold is a whole multiple of the period, at most the matched length -/
+theorem capLoopLength_capped {n L : Nat} (hn : 0 < n) (h : capLoopLength n L ≠ L) :
+    capLoopLength n L = 254 * n ∧ 254 * n < L := by
+  rcases capLoopLength_cases L hn with ⟨h1, _⟩ | h1
+  · exact absurd h1 h
+  · exact h1
+
+/-- the repeat count `apply_match` writes into the inserted `LOOP_END` -/
+def foldCount (n L : Nat) : Nat := L / n + (if L % n ≠ 0 then 2 else 1)
+
+/-- **the count of a capped fold is in 2..255** -/
+theorem foldCount_cap {n L : Nat} (hn : 0 < n) (hL : 0 < L) :
+    2 ≤ foldCount n (capLoopLength n L) ∧ foldCount n (capLoopLength n L) ≤ 255 := by
+  have hd := capLoopLength_div L hn
+  have hpos : 0 < capLoopLength n L := by
+    rcases capLoopLength_cases L hn with ⟨h, _⟩ | ⟨h, _⟩ <;> omega
+  have h := Nat.div_add_mod (capLoopLength n L) n
+  unfold foldCount
+  generalize capLoopLength n L / n = x at *
+  generalize capLoopLength n L % n = y at *
+  split
+  · omega
+  · rename_i hr
+    have hr0 : y = 0 := by omega
+    have : 1 ≤ x := by
+      rcases Nat.eq_zero_or_pos x with h0 | h0
+      · rw [h0, hr0] at h; omega
+      · exact h0
+    omega
 
 theorem wrap16_small {x : Int} (h0 : 0 ≤ x) (h1 : x < 32768) : wrap16 x = x := by
   unfold wrap16; omega
@@ -238,6 +319,57 @@ theorem loop_window {src : List Event} {p q L len0 : Nat} (hpq : p < q) (hL : 0 
   subst hA
   subst hB
   exact ⟨hlen, hAs, h0, h1, hper, eq, heq, hplain⟩
+
+theorem length_replicate_flatten {α : Type} (A : List α) (k : Nat) :
+    (List.replicate k A).flatten.length = k * A.length := by
+  induction k with
+  | zero => simp
+  | succ k ih => rw [List.replicate_succ, List.flatten_cons, List.length_append, ih, Nat.succ_mul]; omega
+
+theorem take_replicate_flatten {α : Type} (A X : List α) (k j : Nat) (hk : k ≤ j) :
+    ((List.replicate j A).flatten ++ X).take (k * A.length) = (List.replicate k A).flatten := by
+  obtain ⟨d, rfl⟩ : ∃ d, j = k + d := ⟨j - k, by omega⟩
+  rw [← List.replicate_append_replicate, List.flatten_append, List.append_assoc]
+  apply List.take_left'
+  exact length_replicate_flatten A k
+
+/-- a loop window may be shortened to a whole number of repetitions: the shorter window is a window
+of the same phrase without remainder -/
+theorem LoopWindow.shorten {src : List Event} {p q L : Nat} (h : LoopWindow src p q L) (hpq : p < q)
+    {k : Nat} (hk : k * (q - p) ≤ L) : LoopWindow src p q (k * (q - p)) := by
+  obtain ⟨n, hn⟩ : ∃ n, n = q - p := ⟨_, rfl⟩
+  have hn0 : 0 < n := by omega
+  rw [← hn] at hk ⊢
+  have hmod : k * n % n = 0 := Nat.mul_mod_left k n
+  have hdiv : k * n / n = k := Nat.mul_div_cancel k hn0
+  have hkj : k ≤ L / n := by
+    rw [Nat.le_div_iff_mul_le hn0]; exact hk
+  obtain ⟨A, hA⟩ : ∃ A, A = (src.drop p).take n := ⟨_, rfl⟩
+  have lA : A.length = n := by
+    rw [hA, List.length_take, List.length_drop]
+    have := h.len
+    omega
+  refine ⟨by have := h.len; omega, hn ▸ h.balA, ?_, ?_, ?_, h.plain⟩
+  · rw [← hn, hmod, List.take_zero]; rfl
+  · rw [← hn, hmod, List.drop_zero]; exact hn ▸ h.balA
+  · have hper := h.per
+    rw [← hn, ← hA] at hper
+    rw [← hn, hmod, hdiv, ← hA, List.take_zero, List.append_nil]
+    have e1 : (src.drop q).take (k * n) = ((src.drop q).take L).take (k * n) := by
+      rw [List.take_take, Nat.min_eq_left hk]
+    rw [e1]
+    simp only [normL] at hper ⊢
+    rw [List.map_take, hper, ← List.map_take]
+    congr 1
+    rw [← lA]
+    exact take_replicate_flatten A _ k (L / A.length) (by rw [lA]; exact hkj)
+
+/-- the window of the capped loop length -/
+theorem LoopWindow.cap {src : List Event} {p q L : Nat} (h : LoopWindow src p q L) (hpq : p < q) :
+    LoopWindow src p q (capLoopLength (q - p) L) := by
+  rcases capLoopLength_cases (n := q - p) L (by omega) with ⟨h1, _⟩ | ⟨h1, h2⟩
+  · rw [h1]; exact h
+  · rw [h1]; exact h.shorten hpq (Nat.le_of_lt h2)
 
 /-- the conditions under which `find_match` records a loop candidate `(loopPosition, loopLength)`
 for the phrase starting at `position`: it lies later in the same track, `find_match_length` of the
